@@ -39,7 +39,7 @@ def run(ctx):
     rep = ctx.rep
     rng = Rng(ctx.seed, 1)
     items = []
-    for i in range(ctx.budget(700, 30000)):
+    for i in range(ctx.budget(450, 30000)):
         r = rng.fork(i)
         text, lay, groups = descs.structured(r)
         n = check(rep, text, lay, groups)
